@@ -45,6 +45,14 @@ def cvar_do_wait(R, prog):
     seen = an.SeenTracker([('sleep', sleep), ('direct_unlock', lambda ev: fp_call_of(ev, unlock)), ('direct_lock', lambda ev: fp_call_of(ev, lock))])
     lockret = K.local_names_init_by(f, lambda e, i: e['k'] == 'call' and not e.get('fn') and 'calleeExpr' in e and
                                     (f.x(f.skip(e['calleeExpr'])) or {}).get('name') == lock)
+    def _is_lock_call(i):
+        e = f.x(f.skip(i))
+        return e is not None and e['k'] == 'call' and not e.get('fn') and 'calleeExpr' in e and (f.x(f.skip(e['calleeExpr'])) or {}).get('name') == lock
+    for e in f.exprs:       # ... or assigned from it (`while ((r = lock(m)) != 0)`)
+        if e['k'] == 'binop' and e['op'] == '=' and _is_lock_call(e['r']):
+            l = f.x(f.skip(e['l']))
+            if l is not None and l['k'] == 'ref':
+                lockret.add(l['name'])
     res = an.run(G, [seen, an.GuardTracker(lambda k: True)])
     K.check_at(R, P + '.K8', G, res, sleep,
                require=lambda st, ev: 'S:direct_unlock' not in st and 'S:direct_lock' not in st,
@@ -65,7 +73,8 @@ def cvar_do_wait(R, prog):
             R.violated(P + '.K8', P + '.K8:photon::cvar_do_wait:direct-unlock', f.id, ev.loc(), 'user lock released directly: %s' % ev.show())
     K.check_at(R, P + '.K6', G, res, lambda ev: (K.returned_call(ev) or (ev.kind == 'return' and ev.depth == 0 and not
                                                   (ev.f.x(ev.f.skip(ev.e['sub'])) or {}).get('k') == 'call')),
-               require=lambda st, ev: 'S:sleep' not in st or any(('G:%s=F' % n) in st for n in lockret),
+               require=lambda st, ev: 'S:sleep' not in st or any(('G:%s=F' % n) in st for n in lockret) or
+               ('G:[(*%s)(%s)]=F' % (lock, m)) in st or ('G:(*%s)(%s)=F' % (lock, m)) in st,
                key_fn=lambda ev: P + '.K6:photon::cvar_do_wait:return-with-lock',
                describe=lambda ev: 'return after the sleep requires lock(m)==0 on the path', min_sites=2, what='returns')
     K.check_at(R, P + '.K7', G, res, lambda ev: ev.kind == 'exit',
